@@ -141,3 +141,24 @@ pub fn main(args: &[String]) -> i32 {
         _ => { eprintln!("fsop build|compact|verify"); 2 }
     }
 }
+
+/// canonical dump of header positions, hash-table slots and block table of an archive file (raw decode, no Archive::open):
+/// `hp.bp.hs.bc.asz;slot,slot,...;blk,blk,...` with slot = N | D | a.b.locale.blk and blk = pos.csize.fsize.flags
+pub fn table_dump(path: &std::path::Path) -> String {
+    use wow_mpq::crypto::{decrypt_block, hash_string, hash_type};
+    let d = match std::fs::read(path) { Ok(d) => d, Err(_) => return "unreadable".into() };
+    if d.len() < 32 || &d[0..4] != b"MPQ\x1a" { return "no-header-at-0".into(); }
+    let u32at = |o: usize| -> u64 { if o + 4 <= d.len() { u32::from_le_bytes([d[o], d[o + 1], d[o + 2], d[o + 3]]) as u64 } else { 0 } };
+    let (asz, hp, bp, hs, bc) = (u32at(8), u32at(16), u32at(20), u32at(24), u32at(28));
+    let table = |pos: u64, n: u64, key: &str| -> Option<Vec<u32>> {
+        let (a, b) = (pos as usize, pos as usize + n as usize * 16);
+        if b > d.len() { return None; }
+        let mut w: Vec<u32> = d[a..b].chunks_exact(4).map(|c| u32::from_le_bytes([c[0], c[1], c[2], c[3]])).collect();
+        decrypt_block(&mut w, hash_string(key, hash_type::FILE_KEY));
+        Some(w)
+    };
+    let (ht, bt) = match (table(hp, hs, "(hash table)"), table(bp, bc, "(block table)")) { (Some(h), Some(b)) => (h, b), _ => return "tables-out-of-file".into() };
+    let slots: Vec<String> = ht.chunks_exact(4).map(|e| match e[3] { 0xFFFF_FFFF => "N".to_string(), 0xFFFF_FFFE => "D".to_string(), k => format!("{}.{}.{}.{}", e[0], e[1], e[2] & 0xFFFF, k) }).collect();
+    let blocks: Vec<String> = bt.chunks_exact(4).map(|e| format!("{}.{}.{}.{}", e[0], e[1], e[2], e[3])).collect();
+    format!("{hp}.{bp}.{hs}.{bc}.{asz};{};{}", slots.join(","), if blocks.is_empty() { "-".to_string() } else { blocks.join(",") })
+}
